@@ -1,0 +1,342 @@
+// Copyright 2020-2025 Buf Technologies, Inc.
+//
+// Licensed under the Apache License, Version 2.0 (the "License");
+// you may not use this file except in compliance with the License.
+// You may obtain a copy of the License at
+//
+//      http://www.apache.org/licenses/LICENSE-2.0
+//
+// Unless required by applicable law or agreed to in writing, software
+// distributed under the License is distributed on an "AS IS" BASIS,
+// WITHOUT WARRANTIES OR CONDITIONS OF ANY KIND, either express or implied.
+// See the License for the specific language governing permissions and
+// limitations under the License.
+
+//go:build verif
+
+package bufcheck
+
+// Contracts for the gocv verifier (author r4a): suppression per annotation, ignore-path distribution and
+// normalisation, duplicate rule detection, annotation conversion (C06, C02). Comment-only.
+//
+//@ trusted pure interface check.Annotation
+//@ trusted pure interface bufanalysis.FileAnnotation
+//@ trusted pure interface bufanalysis.FileInfo
+// (external, google.golang.org/protobuf: ByPath is a lookup in the file's immutable source-location table)
+//@ trusted pure interface protoreflect.SourceLocations
+//@ trusted pure interface bufimage.Image
+//@ trusted pure interface bufimage.ImageFile
+//
+// ---------------------------------------------------------------------------------------------------------------
+// annotation.go
+//
+//@ func newAnnotation(checkAnnotation, pluginName) (r)
+//@   property C06
+//@   ensures r != nil && r.Annotation == checkAnnotation && r.pluginName == pluginName
+//
+//@ pure func (a *annotation) PluginName() (r)
+//@   property C06
+//@   ensures r == a.pluginName
+//
+//@ func newFileInfo(path, externalPath) (r)
+//@   property C06
+//@   ensures r != nil && r.path == path && r.externalPath == externalPath
+//
+// One annotation gives one file annotation with the same rule id (as type), message and plugin name; without a
+// location it names no file; with a location it names the location's file (external path from the image's table) and
+// the 1-based positions of the 0-based location.
+//@ func annotationToFileAnnotation(pathToExternalPath, annotation) (r)
+//@   property C06
+//@   requires annotation != nil
+//@   ensures same-rule-message-plugin: r != nil && r.Type() == annotation.Annotation.RuleID() && r.Message() == annotation.Annotation.Message() && r.PluginName() == annotation.pluginName
+//@   ensures no-location-no-file: annotation.Annotation.FileLocation() == nil ==> r.FileInfo() == nil && r.StartLine() == 0 && r.StartColumn() == 0 && r.EndLine() == 0 && r.EndColumn() == 0
+//@   ensures location-file: annotation.Annotation.FileLocation() != nil ==> r.FileInfo() != nil && typeOf(r.FileInfo()) == typeId(*fileInfo) && cast(*fileInfo, r.FileInfo()).path == annotation.Annotation.FileLocation().FileDescriptor().ProtoreflectFileDescriptor().Path() && cast(*fileInfo, r.FileInfo()).externalPath == ite(annotation.Annotation.FileLocation().FileDescriptor().ProtoreflectFileDescriptor().Path() in pathToExternalPath, pathToExternalPath[annotation.Annotation.FileLocation().FileDescriptor().ProtoreflectFileDescriptor().Path()], "")
+//@   ensures location-one-based: annotation.Annotation.FileLocation() != nil ==> r.StartLine() == annotation.Annotation.FileLocation().StartLine() + 1 && r.StartColumn() == annotation.Annotation.FileLocation().StartColumn() + 1 && r.EndLine() == annotation.Annotation.FileLocation().EndLine() + 1 && r.EndColumn() == annotation.Annotation.FileLocation().EndColumn() + 1
+//@   canary ensures r.FileInfo() == nil
+//
+// Element-wise and order-preserving: file annotation i is the conversion of annotation i (C06: nothing added, nothing
+// lost after filtering; C02: the order is the input order).
+//@ func annotationsToFileAnnotations(pathToExternalPath, annotations) (r)
+//@   property C06 C02
+//@   requires forall i int :: 0 <= i && i < len(annotations) ==> annotations[i] != nil
+//@   closure 0 requires annotation != nil
+//@   closure 0 ensures r != nil && r.Type() == annotation.Annotation.RuleID() && r.Message() == annotation.Annotation.Message() && r.PluginName() == annotation.pluginName && ((annotation.Annotation.FileLocation() == nil) <==> (r.FileInfo() == nil))
+//@   closure 0 ensures annotation.Annotation.FileLocation() != nil ==> typeOf(r.FileInfo()) == typeId(*fileInfo) && cast(*fileInfo, r.FileInfo()).path == annotation.Annotation.FileLocation().FileDescriptor().ProtoreflectFileDescriptor().Path() && r.StartLine() == annotation.Annotation.FileLocation().StartLine() + 1 && r.StartColumn() == annotation.Annotation.FileLocation().StartColumn() + 1 && r.EndLine() == annotation.Annotation.FileLocation().EndLine() + 1 && r.EndColumn() == annotation.Annotation.FileLocation().EndColumn() + 1
+//@   ensures one-per-annotation: len(r) == len(annotations)
+//@   ensures same-rule-message-plugin-in-order: forall i int :: 0 <= i && i < len(annotations) ==> r[i] != nil && r[i].Type() == annotations[i].Annotation.RuleID() && r[i].Message() == annotations[i].Annotation.Message() && r[i].PluginName() == annotations[i].pluginName
+//@   ensures same-location-in-order: forall i int :: 0 <= i && i < len(annotations) ==> ((annotations[i].Annotation.FileLocation() == nil) <==> (r[i].FileInfo() == nil)) && (annotations[i].Annotation.FileLocation() != nil ==> cast(*fileInfo, r[i].FileInfo()).path == annotations[i].Annotation.FileLocation().FileDescriptor().ProtoreflectFileDescriptor().Path() && r[i].StartLine() == annotations[i].Annotation.FileLocation().StartLine() + 1 && r[i].EndLine() == annotations[i].Annotation.FileLocation().EndLine() + 1 && r[i].StartColumn() == annotations[i].Annotation.FileLocation().StartColumn() + 1 && r[i].EndColumn() == annotations[i].Annotation.FileLocation().EndColumn() + 1)
+//
+// ---------------------------------------------------------------------------------------------------------------
+// client.go
+//
+// ignoreAnnotation: an annotation is suppressed as soon as ONE of its two locations (the location, and for breaking
+// the against-location) is suppressed by ignoreFileLocation; an annotation without any location is never suppressed.
+// ra_annSuppressed (specs/R4a.spec) is the disjunction, over the two locations, of the documented configuration
+// reasons: excluded import, `ignore` path above the file, `ignore_only` path OF THIS RULE above the file.
+// Positive direction: each such reason suppresses. Negative direction ("nothing else suppresses") where
+// ignoreFileLocation gives it: no unstable-package / comment ignores in the configuration. An error (only possible
+// from the comment lookup) never suppresses.
+// The ghost flags record the lookups done for ONE location (ignoreFileLocation requires them cleared), so ghost code
+// clears them before each location; after the call they describe the last location examined.
+//@ func ignoreAnnotation(config, annotation) (r, err)
+//@   property C06
+//@   modifies ghost.commentsConsulted, ghost.versionConsulted
+//@   ghost before "if fileLocation := annotation.FileLocation()" commentsConsulted := false
+//@   ghost before "if fileLocation := annotation.FileLocation()" versionConsulted := false
+//@   ghost before "if againstFileLocation := annotation.AgainstFileLocation()" commentsConsulted := false
+//@   ghost before "if againstFileLocation := annotation.AgainstFileLocation()" versionConsulted := false
+//@   requires config != nil && annotation != nil && ra_annPathsValid(annotation.Annotation)
+//@   requires (forall k string :: k in config.IgnoreRootPaths ==> validRel(k)) && (forall id string, k string :: id in config.IgnoreRuleIDToRootPaths && k in config.IgnoreRuleIDToRootPaths[id] ==> validRel(k))
+//@   ensures no-location-never-suppressed: annotation.Annotation.FileLocation() == nil && annotation.Annotation.AgainstFileLocation() == nil ==> !r && err == nil
+//@   ensures configured-reason-suppresses: err == nil && ra_annSuppressed(config.ExcludeImports, dom(config.IgnoreRootPaths), annotation.Annotation.RuleID() in config.IgnoreRuleIDToRootPaths, dom(config.IgnoreRuleIDToRootPaths[annotation.Annotation.RuleID()]), annotation.Annotation) ==> r
+//@   ensures location-reason-needs-no-lookup: ra_locSuppressed(config.ExcludeImports, dom(config.IgnoreRootPaths), annotation.Annotation.RuleID() in config.IgnoreRuleIDToRootPaths, dom(config.IgnoreRuleIDToRootPaths[annotation.Annotation.RuleID()]), annotation.Annotation.FileLocation()) ==> r && err == nil
+//@   ensures nothing-else-suppresses: r && !config.IgnoreUnstablePackages && !(config.AllowCommentIgnores && config.CommentIgnorePrefix != "") ==> ra_annSuppressed(config.ExcludeImports, dom(config.IgnoreRootPaths), annotation.Annotation.RuleID() in config.IgnoreRuleIDToRootPaths, dom(config.IgnoreRuleIDToRootPaths[annotation.Annotation.RuleID()]), annotation.Annotation)
+//@   ensures error-never-suppresses: err != nil ==> !r
+//@   ensures errors-only-from-comment-lookup: err != nil ==> config.AllowCommentIgnores && config.CommentIgnorePrefix != ""
+//@   canary ensures r
+//@   canary ensures !r
+//
+// util.go: the path -> external path table of the image (every image file is in it, with its external path).
+//@ func imageToPathToExternalPath(image) (r)
+//@   property C06
+//@   ensures every-file-listed: r != nil && (forall j int :: 0 <= j && j < len(image.Files()) ==> image.Files()[j].Path() in r)
+//@   ensures only-image-files: forall k string :: k in r ==> (exists j int :: 0 <= j && j < len(image.Files()) && image.Files()[j].Path() == k && r[k] == image.Files()[j].ExternalPath())
+//@   loop 0 invariant pathToExternalPath != nil && (forall j int :: 0 <= j && j < $i ==> imageFiles[j].Path() in pathToExternalPath)
+//@   loop 0 invariant forall k string :: k in pathToExternalPath ==> (exists j int :: 0 <= j && j < $i && imageFiles[j].Path() == k && pathToExternalPath[k] == imageFiles[j].ExternalPath())
+//
+// annotationsToFilteredFileAnnotationSetOrError: what lint / breaking finally report. Documented behaviour (client.go,
+// bufcheck.go "returns a bufanalysis.FileAnnotationSet error if there are failures"): no annotation left after
+// suppression <==> no error; otherwise the error IS a FileAnnotationSet built from the annotations that are left.
+//  - nothing-reported-no-error: no annotations at all is success;
+//  - all-suppressed-no-error: if every annotation is suppressed by a configured reason, the result is success
+//    (suppression removes; C06 "minus exactly the suppressed ones");
+//  - unsuppressed-is-reported: without comment / unstable-package ignores, one annotation that no configured reason
+//    suppresses makes the call fail with a FileAnnotationSet (a suppression never hides an annotation outside its scope);
+//  - only-unsuppressed-reported: every file annotation of that set carries rule id, message and plugin of an annotation
+//    that is NOT suppressed by a configured reason (nothing suppressed leaks, nothing invented).
+//@ func annotationsToFilteredFileAnnotationSetOrError(config, image, annotations) (err)
+//@   property C06
+//@   modifies ghost.commentsConsulted, ghost.versionConsulted
+//@   requires config != nil && (forall i int :: 0 <= i && i < len(annotations) ==> annotations[i] != nil && ra_annPathsValid(annotations[i].Annotation))
+//@   requires (forall k string :: k in config.IgnoreRootPaths ==> validRel(k)) && (forall id string, k string :: id in config.IgnoreRuleIDToRootPaths && k in config.IgnoreRuleIDToRootPaths[id] ==> validRel(k))
+//@   ensures nothing-reported-no-error: len(annotations) == 0 ==> err == nil
+//@   ensures all-suppressed-no-error: !(config.AllowCommentIgnores && config.CommentIgnorePrefix != "") && (forall i int :: 0 <= i && i < len(annotations) ==> ra_annSuppressed(config.ExcludeImports, dom(config.IgnoreRootPaths), annotations[i].Annotation.RuleID() in config.IgnoreRuleIDToRootPaths, dom(config.IgnoreRuleIDToRootPaths[annotations[i].Annotation.RuleID()]), annotations[i].Annotation)) ==> err == nil
+//@   ensures unsuppressed-is-reported: !config.IgnoreUnstablePackages && !(config.AllowCommentIgnores && config.CommentIgnorePrefix != "") && (exists i int :: 0 <= i && i < len(annotations) && !ra_annSuppressed(config.ExcludeImports, dom(config.IgnoreRootPaths), annotations[i].Annotation.RuleID() in config.IgnoreRuleIDToRootPaths, dom(config.IgnoreRuleIDToRootPaths[annotations[i].Annotation.RuleID()]), annotations[i].Annotation)) ==> err != nil && typeOf(err) == typeId(*bufanalysis.fileAnnotationSet)
+//@   ensures only-unsuppressed-reported: !(config.AllowCommentIgnores && config.CommentIgnorePrefix != "") && err != nil && typeOf(err) == typeId(*bufanalysis.fileAnnotationSet) ==> (forall a int :: 0 <= a && a < len(cast(*bufanalysis.fileAnnotationSet, err).fileAnnotations) ==> (exists i int :: 0 <= i && i < len(annotations) && !ra_annSuppressed(config.ExcludeImports, dom(config.IgnoreRootPaths), annotations[i].Annotation.RuleID() in config.IgnoreRuleIDToRootPaths, dom(config.IgnoreRuleIDToRootPaths[annotations[i].Annotation.RuleID()]), annotations[i].Annotation) && cast(*bufanalysis.fileAnnotationSet, err).fileAnnotations[a].Type() == annotations[i].Annotation.RuleID() && cast(*bufanalysis.fileAnnotationSet, err).fileAnnotations[a].Message() == annotations[i].Annotation.Message() && cast(*bufanalysis.fileAnnotationSet, err).fileAnnotations[a].PluginName() == annotations[i].pluginName))
+// for EVERY configuration (comment ignores included): what is handed to the annotation set are reported annotations, none of
+// them suppressed by a configured reason, and at least one (the first) is left
+//@   assert before "return bufanalysis.NewFileAnnotationSet(" only-unsuppressed-handed-on: len(annotations) > 0 && !ra_annSuppressed(config.ExcludeImports, dom(config.IgnoreRootPaths), annotations[0].Annotation.RuleID() in config.IgnoreRuleIDToRootPaths, dom(config.IgnoreRuleIDToRootPaths[annotations[0].Annotation.RuleID()]), annotations[0].Annotation) && (forall a int :: 0 <= a && a < len(annotations) ==> !ra_annSuppressed(config.ExcludeImports, dom(config.IgnoreRootPaths), annotations[a].Annotation.RuleID() in config.IgnoreRuleIDToRootPaths, dom(config.IgnoreRuleIDToRootPaths[annotations[a].Annotation.RuleID()]), annotations[a].Annotation) && (exists i int :: 0 <= i && i < len(old(annotations)) && old(annotations)[i] == annotations[a]))
+//@   canary ensures err == nil
+//@   canary ensures err != nil
+//
+// ---------------------------------------------------------------------------------------------------------------
+// rules_config.go
+//
+// ignore_only keys may be rule IDs or category IDs. A rule ID keeps its own paths; the paths of a category are
+// distributed to EXACTLY the rules of that category (every one of them, and nobody else); an ID that is neither a rule
+// nor a category is rejected; the empty ID is skipped. (A name that is both a rule and a category counts as the rule,
+// as in transformRuleOrCategoryIDsToRuleIDs.)
+//@ func transformRuleOrCategoryIDToIgnoreRootPathsToRuleIDs(ruleOrCategoryIDToIgnoreRootPaths, ruleIDToCategoryIDs, categoryIDToRuleIDs) (r, err)
+//@   property C06
+//@   reveal inSlice
+//@   ensures empty-gives-nothing: len(ruleOrCategoryIDToIgnoreRootPaths) == 0 ==> err == nil && len(r) == 0
+//@   ensures unknown-rejected: len(ruleOrCategoryIDToIgnoreRootPaths) > 0 ==> ((err != nil) <==> (exists id string :: id in ruleOrCategoryIDToIgnoreRootPaths && id != "" && !(id in ruleIDToCategoryIDs) && !(id in categoryIDToRuleIDs)))
+//@   ensures keys-sound: err == nil ==> (forall id string :: id in r ==> ((id in ruleOrCategoryIDToIgnoreRootPaths && id in ruleOrCategoryIDToIgnoreRootPaths && id != "" && id in ruleIDToCategoryIDs) || (exists c string :: c in ruleOrCategoryIDToIgnoreRootPaths && c in ruleOrCategoryIDToIgnoreRootPaths && c != "" && !(c in ruleIDToCategoryIDs) && c in categoryIDToRuleIDs && inSlice(categoryIDToRuleIDs[c], id))))
+//@   ensures nothing-else-added: err == nil ==> (forall id string, p string :: id in r && p in r[id] ==> (((id in ruleOrCategoryIDToIgnoreRootPaths && id in ruleOrCategoryIDToIgnoreRootPaths && id != "" && id in ruleIDToCategoryIDs) && p in ruleOrCategoryIDToIgnoreRootPaths[id]) || (exists c string :: c in ruleOrCategoryIDToIgnoreRootPaths && c in ruleOrCategoryIDToIgnoreRootPaths && c != "" && !(c in ruleIDToCategoryIDs) && c in categoryIDToRuleIDs && inSlice(categoryIDToRuleIDs[c], id) && p in ruleOrCategoryIDToIgnoreRootPaths[c])))
+//@   ensures rule-keeps-own-paths: err == nil && len(ruleOrCategoryIDToIgnoreRootPaths) > 0 ==> r != nil && (forall id string :: (id in ruleOrCategoryIDToIgnoreRootPaths && id in ruleOrCategoryIDToIgnoreRootPaths && id != "" && id in ruleIDToCategoryIDs) ==> id in r && (forall p string :: p in ruleOrCategoryIDToIgnoreRootPaths[id] ==> p in r[id]))
+//@   ensures category-paths-to-each-of-its-rules: err == nil && len(ruleOrCategoryIDToIgnoreRootPaths) > 0 ==> (forall c string, q int :: c in ruleOrCategoryIDToIgnoreRootPaths && c in ruleOrCategoryIDToIgnoreRootPaths && c != "" && !(c in ruleIDToCategoryIDs) && c in categoryIDToRuleIDs && 0 <= q && q < len(categoryIDToRuleIDs[c]) ==> categoryIDToRuleIDs[c][q] in r && (forall p string :: p in ruleOrCategoryIDToIgnoreRootPaths[c] ==> p in r[categoryIDToRuleIDs[c][q]]))
+//@   canary ensures err != nil
+//@   canary ensures forall id string, p string :: id in r ==> !(p in r[id])
+// loop 0 is the loop of the closure addRootPaths (called from two places): relative to ITS entry it adds exactly the visited paths to the entry of ruleID
+//@   loop 0 invariant ruleIDToIgnoreRootPaths != nil && ignoreRootPathMap != nil && ruleID in ruleIDToIgnoreRootPaths && ruleIDToIgnoreRootPaths[ruleID] == ignoreRootPathMap
+//@   loop 0 invariant forall p string :: (p in ignoreRootPathMap) <==> (p in $entry(ignoreRootPathMap) || p in $visited)
+//@   loop 0 invariant forall id string :: id != ruleID ==> ((id in ruleIDToIgnoreRootPaths) <==> (id in $entry(ruleIDToIgnoreRootPaths))) && ruleIDToIgnoreRootPaths[id] == $entry(ruleIDToIgnoreRootPaths)[id]
+//@   loop 0 invariant forall p string :: p in $visited ==> p in rootPaths
+//@   loop 1 invariant ruleIDToIgnoreRootPaths != nil && (forall k string :: k in $visited ==> k in ruleOrCategoryIDToIgnoreRootPaths && (k == "" || k in ruleIDToCategoryIDs || k in categoryIDToRuleIDs)) && (forall id string :: id in ruleIDToIgnoreRootPaths ==> ruleIDToIgnoreRootPaths[id] != nil)
+//@   loop 1 invariant forall id string, p string :: id in ruleIDToIgnoreRootPaths && p in ruleIDToIgnoreRootPaths[id] ==> (((id in $visited && id in ruleOrCategoryIDToIgnoreRootPaths && id != "" && id in ruleIDToCategoryIDs) && p in ruleOrCategoryIDToIgnoreRootPaths[id]) || (exists c string :: c in $visited && c in ruleOrCategoryIDToIgnoreRootPaths && c != "" && !(c in ruleIDToCategoryIDs) && c in categoryIDToRuleIDs && inSlice(categoryIDToRuleIDs[c], id) && p in ruleOrCategoryIDToIgnoreRootPaths[c]))
+//@   loop 1 invariant forall id string :: id in ruleIDToIgnoreRootPaths ==> ((id in $visited && id in ruleOrCategoryIDToIgnoreRootPaths && id != "" && id in ruleIDToCategoryIDs) || (exists c string :: c in $visited && c in ruleOrCategoryIDToIgnoreRootPaths && c != "" && !(c in ruleIDToCategoryIDs) && c in categoryIDToRuleIDs && inSlice(categoryIDToRuleIDs[c], id)))
+//@   loop 1 invariant forall id string :: (id in $visited && id in ruleOrCategoryIDToIgnoreRootPaths && id != "" && id in ruleIDToCategoryIDs) ==> id in ruleIDToIgnoreRootPaths && (forall p string :: p in ruleOrCategoryIDToIgnoreRootPaths[id] ==> p in ruleIDToIgnoreRootPaths[id])
+//@   loop 1 invariant forall c string, q int :: c in $visited && c in ruleOrCategoryIDToIgnoreRootPaths && c != "" && !(c in ruleIDToCategoryIDs) && c in categoryIDToRuleIDs && 0 <= q && q < len(categoryIDToRuleIDs[c]) ==> categoryIDToRuleIDs[c][q] in ruleIDToIgnoreRootPaths && (forall p string :: p in ruleOrCategoryIDToIgnoreRootPaths[c] ==> p in ruleIDToIgnoreRootPaths[categoryIDToRuleIDs[c][q]])
+//@   loop 2 invariant ruleIDToIgnoreRootPaths != nil && (forall k string :: k in $visited1 ==> k in ruleOrCategoryIDToIgnoreRootPaths && (k == "" || k in ruleIDToCategoryIDs || k in categoryIDToRuleIDs)) && (forall id string :: id in ruleIDToIgnoreRootPaths ==> ruleIDToIgnoreRootPaths[id] != nil)
+//@   loop 2 invariant ruleOrCategoryID in ruleOrCategoryIDToIgnoreRootPaths && ruleOrCategoryID != "" && !(ruleOrCategoryID in ruleIDToCategoryIDs) && ruleOrCategoryID in categoryIDToRuleIDs && ruleIDs == categoryIDToRuleIDs[ruleOrCategoryID] && rootPaths == ruleOrCategoryIDToIgnoreRootPaths[ruleOrCategoryID]
+//@   loop 2 invariant forall id string, p string :: id in ruleIDToIgnoreRootPaths && p in ruleIDToIgnoreRootPaths[id] ==> (((id in add($visited1, ruleOrCategoryID) && id in ruleOrCategoryIDToIgnoreRootPaths && id != "" && id in ruleIDToCategoryIDs) && p in ruleOrCategoryIDToIgnoreRootPaths[id]) || (exists c string :: c in add($visited1, ruleOrCategoryID) && c in ruleOrCategoryIDToIgnoreRootPaths && c != "" && !(c in ruleIDToCategoryIDs) && c in categoryIDToRuleIDs && inSlice(categoryIDToRuleIDs[c], id) && p in ruleOrCategoryIDToIgnoreRootPaths[c]))
+//@   loop 2 invariant forall id string :: id in ruleIDToIgnoreRootPaths ==> ((id in add($visited1, ruleOrCategoryID) && id in ruleOrCategoryIDToIgnoreRootPaths && id != "" && id in ruleIDToCategoryIDs) || (exists c string :: c in add($visited1, ruleOrCategoryID) && c in ruleOrCategoryIDToIgnoreRootPaths && c != "" && !(c in ruleIDToCategoryIDs) && c in categoryIDToRuleIDs && inSlice(categoryIDToRuleIDs[c], id)))
+//@   loop 2 invariant forall id string :: (id in $visited1 && id in ruleOrCategoryIDToIgnoreRootPaths && id != "" && id in ruleIDToCategoryIDs) ==> id in ruleIDToIgnoreRootPaths && (forall p string :: p in ruleOrCategoryIDToIgnoreRootPaths[id] ==> p in ruleIDToIgnoreRootPaths[id])
+//@   loop 2 invariant forall c string, q int :: c in $visited1 && c in ruleOrCategoryIDToIgnoreRootPaths && c != "" && !(c in ruleIDToCategoryIDs) && c in categoryIDToRuleIDs && 0 <= q && q < len(categoryIDToRuleIDs[c]) ==> categoryIDToRuleIDs[c][q] in ruleIDToIgnoreRootPaths && (forall p string :: p in ruleOrCategoryIDToIgnoreRootPaths[c] ==> p in ruleIDToIgnoreRootPaths[categoryIDToRuleIDs[c][q]])
+//@   loop 2 invariant forall q int :: 0 <= q && q < $i2 ==> ruleIDs[q] in ruleIDToIgnoreRootPaths && (forall p string :: p in rootPaths ==> p in ruleIDToIgnoreRootPaths[ruleIDs[q]])
+//
+// Ignore paths are normalised and validated: the result holds exactly the normalised forms of the non-empty inputs, each a
+// valid relative path other than "."; an input that does not normalise to a valid relative path, or that is the root ".",
+// is rejected (so ignoreFileLocation's path-wise containment test is always asked with valid paths); the result is sorted
+// (C02: it does not depend on the order the paths were listed in).
+//@ func normalizeIgnoreRootPaths(rootPaths) (r, err)
+//@   property C06 C02
+//@   ensures all-valid-not-root: err == nil ==> (forall i int :: 0 <= i && i < len(r) ==> validRel(r[i]) && r[i] != ".")
+//@   ensures only-normalized-inputs: err == nil ==> (forall i int :: 0 <= i && i < len(r) ==> (exists j int :: 0 <= j && j < len(rootPaths) && rootPaths[j] != "" && r[i] == normalpath.Normalize(rootPaths[j])))
+//@   ensures every-input-kept: err == nil ==> (forall j int :: 0 <= j && j < len(rootPaths) && rootPaths[j] != "" ==> (exists i int :: 0 <= i && i < len(r) && r[i] == normalpath.Normalize(rootPaths[j])))
+//@   ensures invalid-or-root-rejected: (err != nil) <==> (exists j int :: 0 <= j && j < len(rootPaths) && rootPaths[j] != "" && (second(normalpath.NormalizeAndValidate(rootPaths[j])) != nil || normalpath.Normalize(rootPaths[j]) == "."))
+//@   ensures sorted {C02}: forall i int, j int :: 0 <= i && i < j && j < len(r) ==> r[i] <= r[j]
+//@   loop 0 invariant rootPathMap != nil
+//@   loop 0 invariant forall j int :: 0 <= j && j < $i ==> rootPaths[j] == "" || (second(normalpath.NormalizeAndValidate(rootPaths[j])) == nil && normalpath.Normalize(rootPaths[j]) != "." && normalpath.Normalize(rootPaths[j]) in rootPathMap)
+//@   loop 0 invariant forall p string :: p in rootPathMap ==> validRel(p) && p != "." && (exists j int :: 0 <= j && j < $i && rootPaths[j] != "" && p == normalpath.Normalize(rootPaths[j]))
+//@   canary ensures err != nil
+//@   canary ensures len(r) == 0
+//
+// The same per ignore_only key: the keys are unchanged and each key's paths are normalised as above.
+//@ func normalizeKeyToIgnoreRootPathMap(keyToRootPaths) (r, err)
+//@   property C06
+//@   ensures same-keys: err == nil ==> r != nil && (forall k K :: (k in r) <==> (k in keyToRootPaths))
+//@   ensures all-valid-not-root: err == nil ==> (forall k K, p string :: k in r && p in r[k] ==> validRel(p) && p != ".")
+//@   ensures only-normalized-inputs: err == nil ==> (forall k K, p string :: k in r && p in r[k] ==> (exists q string :: q in keyToRootPaths[k] && q != "" && p == normalpath.Normalize(q)))
+//@   ensures every-path-kept: err == nil ==> (forall k K, q string :: k in keyToRootPaths && q in keyToRootPaths[k] && q != "" ==> normalpath.Normalize(q) in r[k])
+//@   ensures invalid-or-root-rejected: (err != nil) <==> (exists k K, q string :: k in keyToRootPaths && q in keyToRootPaths[k] && q != "" && (second(normalpath.NormalizeAndValidate(q)) != nil || normalpath.Normalize(q) == "."))
+//@   loop 0 invariant keyToNormalizedRootPathMap != nil && (forall k K :: (k in keyToNormalizedRootPathMap) <==> (k in $visited)) && (forall k K :: k in $visited ==> k in keyToRootPaths)
+//@   loop 0 invariant forall k K, p string :: k in keyToNormalizedRootPathMap && p in keyToNormalizedRootPathMap[k] ==> validRel(p) && p != "." && (exists q string :: q in keyToRootPaths[k] && q != "" && p == normalpath.Normalize(q))
+//@   loop 0 invariant forall k K, q string :: k in $visited && q in keyToRootPaths[k] && q != "" ==> second(normalpath.NormalizeAndValidate(q)) == nil && normalpath.Normalize(q) != "." && normalpath.Normalize(q) in keyToNormalizedRootPathMap[k]
+//@   canary ensures err != nil
+//
+// Plugin name -> the IDs of its rules (documented at rulesConfig.UnusedPluginNameToRuleIDs: no empty key - builtin rules
+// are not listed -, every list non-empty, "the Rule IDs will be sorted": the lists do not depend on the order in which
+// the plugins / rules were enumerated, C02).
+//@ func getPluginNameToRuleOrCategoryIDs(ruleOrCategories) (r)
+//@   property C06 C02
+//@   reveal inSlice
+//@   ensures no-builtin-key: r != nil && !("" in r)
+//@   ensures keys-are-the-plugin-names: forall k string :: (k in r) <==> (k != "" && (exists j int :: 0 <= j && j < len(ruleOrCategories) && ruleOrCategories[j].PluginName() == k))
+//@   ensures only-ids-of-the-plugin: forall k string, x string :: k in r && inSlice(r[k], x) ==> (exists j int :: 0 <= j && j < len(ruleOrCategories) && ruleOrCategories[j].PluginName() == k && ruleOrCategories[j].ID() == x)
+//@   ensures every-id-of-the-plugin: forall j int :: 0 <= j && j < len(ruleOrCategories) && ruleOrCategories[j].PluginName() != "" ==> ruleOrCategories[j].PluginName() in r && inSlice(r[ruleOrCategories[j].PluginName()], ruleOrCategories[j].ID())
+//@   ensures lists-sorted {C02}: forall k string, a int, b int :: k in r && 0 <= a && a < b && b < len(r[k]) ==> r[k][a] <= r[k][b]
+//@   ensures lists-non-empty: forall k string :: k in r ==> len(r[k]) > 0
+//@   loop 0 invariant m != nil && !("" in m) && (forall k string :: k in m ==> len(m[k]) > 0)
+//@   loop 0 invariant forall k string :: (k in m) <==> (k != "" && (exists j int :: 0 <= j && j < $i && ruleOrCategories[j].PluginName() == k))
+//@   loop 0 invariant forall k string, x string :: k in m && inSlice(m[k], x) ==> (exists j int :: 0 <= j && j < $i && ruleOrCategories[j].PluginName() == k && ruleOrCategories[j].ID() == x)
+//@   loop 0 invariant forall j int :: 0 <= j && j < $i && ruleOrCategories[j].PluginName() != "" ==> ruleOrCategories[j].PluginName() in m && inSlice(m[ruleOrCategories[j].PluginName()], ruleOrCategories[j].ID())
+// loop 1 sorts every list in place: same keys, same elements per key, the visited lists are sorted
+//@   loop 1 invariant m != nil && (forall k string :: (k in m) <==> (k in $entry(m))) && (forall k string :: k in m ==> len(m[k]) == len($entry(m)[k]))
+//@   loop 1 invariant forall k string :: k in m && !(k in $visited) ==> m[k] == $entry(m)[k]
+//@   loop 1 invariant !("" in m) && (forall k string :: k in m ==> len(m[k]) > 0) && (forall k string :: (k in m) <==> (k != "" && (exists j int :: 0 <= j && j < len(ruleOrCategories) && ruleOrCategories[j].PluginName() == k)))
+//@   loop 1 invariant forall k string, x string :: k in m && inSlice(m[k], x) ==> (exists j int :: 0 <= j && j < len(ruleOrCategories) && ruleOrCategories[j].PluginName() == k && ruleOrCategories[j].ID() == x)
+// every element of the list found at loop entry is still in the list: at its sorted position (sort.sortedTo, the permutation of sort.Strings' contract) once the key was visited
+//@   loop 1 invariant forall k string, q int :: k in m && k in $visited && 0 <= q && q < len(m[k]) ==> 0 <= sortedTo($entry(m)[k], q) && sortedTo($entry(m)[k], q) < len(m[k]) && m[k][sortedTo($entry(m)[k], q)] == $entry(m)[k][q]
+//@   loop 1 invariant forall k string, a int, b int :: k in m && k in $visited && 0 <= a && a < b && b < len(m[k]) ==> m[k][a] <= m[k][b]
+//
+// ---------------------------------------------------------------------------------------------------------------
+// multi_client.go
+//
+//@ func newDuplicateRuleOrCategoryError(duplicateIDToRuleOrCategories) (r)
+//@   property C06
+//@   ensures r != nil && r.duplicateIDToRuleOrCategories == duplicateIDToRuleOrCategories
+//
+// Two plugins (or a plugin and the builtin rules) must not declare the same rule or category ID: the call fails IFF some
+// ID is declared twice (two rules, two categories, or a rule and a category - ra_dupUpTo in specs/R4a.spec), and the
+// error records EXACTLY the duplicated IDs (no ID that is declared once, every ID that is declared twice).
+//@ func validateNoDuplicateRulesOrCategories(rules, categories) (err)
+//@   property C06
+//@   ensures error-iff-duplicate: (err != nil) <==> (exists id string :: ra_dupUpTo(rules, len(rules), categories, len(categories), id))
+//@   ensures error-names-exactly-the-duplicates: err != nil ==> typeOf(err) == typeId(*duplicateRuleOrCategoryError) && (forall id string :: (id in cast(*duplicateRuleOrCategoryError, err).duplicateIDToRuleOrCategories) <==> ra_dupUpTo(rules, len(rules), categories, len(categories), id))
+//@   ensures error-lists-every-declaration: err != nil ==> (forall id string :: id in cast(*duplicateRuleOrCategoryError, err).duplicateIDToRuleOrCategories ==> len(cast(*duplicateRuleOrCategoryError, err).duplicateIDToRuleOrCategories[id]) >= 2)
+//@   loop 0 invariant idToRuleOrCategories != nil && (forall id string :: (id in idToRuleOrCategories) <==> ra_seenUpTo(rules, $i, categories, 0, id))
+//@   loop 0 invariant forall id string :: id in idToRuleOrCategories ==> len(idToRuleOrCategories[id]) >= 1 && ((len(idToRuleOrCategories[id]) >= 2) <==> ra_dupUpTo(rules, $i, categories, 0, id))
+//@   loop 1 invariant idToRuleOrCategories != nil && (forall id string :: (id in idToRuleOrCategories) <==> ra_seenUpTo(rules, len(rules), categories, $i, id))
+//@   loop 1 invariant forall id string :: id in idToRuleOrCategories ==> len(idToRuleOrCategories[id]) >= 1 && ((len(idToRuleOrCategories[id]) >= 2) <==> ra_dupUpTo(rules, len(rules), categories, $i, id))
+//@   loop 2 invariant idToRuleOrCategories != nil && (forall id string :: id in idToRuleOrCategories ==> id in $entry(idToRuleOrCategories) && idToRuleOrCategories[id] == $entry(idToRuleOrCategories)[id])
+//@   loop 2 invariant forall id string :: id in $entry(idToRuleOrCategories) && !(id in $visited) ==> id in idToRuleOrCategories
+//@   loop 2 invariant forall id string :: id in $entry(idToRuleOrCategories) && id in $visited ==> ((id in idToRuleOrCategories) <==> len($entry(idToRuleOrCategories)[id]) >= 2)
+//@   canary ensures err != nil
+//@   canary ensures err == nil
+//
+// The IDs named by a duplicate error: exactly the keys of its table, sorted (C02: the message lists them in an order that
+// does not depend on map enumeration or on the order the plugins were listed in).
+//@ func (d *duplicateRuleOrCategoryError) duplicateIDs() (r)
+//@   property C06 C02
+//@   ensures nothing-for-nil-or-empty: (d == nil || len(d.duplicateIDToRuleOrCategories) == 0) ==> len(r) == 0
+//@   ensures only-duplicate-ids: d != nil ==> (forall j int :: 0 <= j && j < len(r) ==> r[j] in d.duplicateIDToRuleOrCategories)
+//@   ensures every-duplicate-id: d != nil ==> (forall k string :: k in d.duplicateIDToRuleOrCategories ==> (exists j int :: 0 <= j && j < len(r) && r[j] == k))
+//@   ensures sorted {C02}: forall i int, j int :: 0 <= i && i < j && j < len(r) ==> r[i] <= r[j]
+//
+// ---------------------------------------------------------------------------------------------------------------
+// options_config.go / config.go: which suppression mechanisms are switched on.
+// Lint: comment ignores exactly when allow_comment_ignores is set, with the documented prefix "buf:lint:ignore"; never
+// unstable-package ignores, never import exclusion. Breaking: never comment ignores (empty prefix); unstable packages
+// exactly when ignore_unstable_packages is set; imports excluded exactly when the caller asked for it.
+//@ func optionsConfigSpecForLintConfig(lintConfig) (r)
+//@   property C06
+//@   ensures r != nil && r.AllowCommentIgnores == lintConfig.AllowCommentIgnores() && r.CommentIgnorePrefix == "buf:lint:ignore" && !r.IgnoreUnstablePackages && !r.ExcludeImports
+//@   ensures lint-options-passed-on: r.EnumZeroValueSuffix == lintConfig.EnumZeroValueSuffix() && r.RPCAllowSameRequestResponse == lintConfig.RPCAllowSameRequestResponse() && r.RPCAllowGoogleProtobufEmptyRequests == lintConfig.RPCAllowGoogleProtobufEmptyRequests() && r.RPCAllowGoogleProtobufEmptyResponses == lintConfig.RPCAllowGoogleProtobufEmptyResponses() && r.ServiceSuffix == lintConfig.ServiceSuffix()
+//
+//@ func optionsConfigSpecForBreakingConfig(breakingConfig, excludeImports) (r)
+//@   property C06
+//@   ensures r != nil && !r.AllowCommentIgnores && r.CommentIgnorePrefix == "" && r.IgnoreUnstablePackages == breakingConfig.IgnoreUnstablePackages() && r.ExcludeImports == excludeImports
+//
+//@ func (b *optionsConfigSpec) newOptionsConfig(ruleType) (r, err)
+//@   property C06
+//@   requires b != nil
+//@   ensures switches-copied: err == nil ==> r != nil && r.AllowCommentIgnores == b.AllowCommentIgnores && r.IgnoreUnstablePackages == b.IgnoreUnstablePackages && r.CommentIgnorePrefix == b.CommentIgnorePrefix && r.ExcludeImports == b.ExcludeImports && r.DefaultOptions != nil
+//
+//@ func optionsConfigForLintConfig(lintConfig) (r, err)
+//@   property C06
+//@   ensures lint-switches: err == nil ==> r != nil && r.AllowCommentIgnores == lintConfig.AllowCommentIgnores() && r.CommentIgnorePrefix == "buf:lint:ignore" && !r.IgnoreUnstablePackages && !r.ExcludeImports && r.DefaultOptions != nil
+//
+//@ func optionsConfigForBreakingConfig(breakingConfig, excludeImports) (r, err)
+//@   property C06
+//@   ensures breaking-switches: err == nil ==> r != nil && !r.AllowCommentIgnores && r.CommentIgnorePrefix == "" && r.IgnoreUnstablePackages == breakingConfig.IgnoreUnstablePackages() && r.ExcludeImports == excludeImports && r.DefaultOptions != nil
+//
+// rulesConfigForCheckConfig hands the four configuration lists of the check config to newRulesConfig (whose selection law
+// use-minus-except / ignore-only-undeprecated is asserted inside newRulesConfig); its only obligation is newRulesConfig's
+// documented input invariant on the rule specs.
+//@ func rulesConfigForCheckConfig(checkConfig, allRules, allCategories, ruleType, relatedCheckConfigs) (r, err)
+//@   property C06
+//@   modifies heap
+//@   requires replacements-not-deprecated: forall i int, j int, q int :: 0 <= i && i < len(allRules) && 0 <= j && j < len(allRules) && allRules[i].Deprecated() && 0 <= q && q < len(allRules[i].ReplacementIDs()) && allRules[j].ID() == allRules[i].ReplacementIDs()[q] ==> !allRules[j].Deprecated()
+// (newRulesConfig#post[ignore-paths-valid]) the ignore / ignore_only paths handed to the filter are valid relative paths, never the root
+//@   ensures ignore-paths-valid: err == nil ==> r != nil && (forall k string :: k in r.IgnoreRootPaths ==> validRel(k) && k != ".") && (forall id string, k string :: id in r.IgnoreRuleIDToRootPaths && k in r.IgnoreRuleIDToRootPaths[id] ==> validRel(k) && k != ".")
+//
+// The configuration used for filtering: lint switches for lint, breaking switches for breaking (see above); a failure of
+// either half is a failure of the whole.
+//@ func configForLintConfig(lintConfig, allRules, allCategories, relatedCheckConfigs) (r, err)
+//@   property C06
+//@   modifies heap
+//@   requires replacements-not-deprecated: forall i int, j int, q int :: 0 <= i && i < len(allRules) && 0 <= j && j < len(allRules) && allRules[i].Deprecated() && 0 <= q && q < len(allRules[i].ReplacementIDs()) && allRules[j].ID() == allRules[i].ReplacementIDs()[q] ==> !allRules[j].Deprecated()
+//@   ensures lint-switches: err == nil ==> r != nil && r.optionsConfig != nil && r.optionsConfig.AllowCommentIgnores == lintConfig.AllowCommentIgnores() && r.optionsConfig.CommentIgnorePrefix == "buf:lint:ignore" && !r.optionsConfig.IgnoreUnstablePackages && !r.optionsConfig.ExcludeImports
+//@   ensures ignore-paths-valid: err == nil ==> r.rulesConfig != nil && (forall k string :: k in r.rulesConfig.IgnoreRootPaths ==> validRel(k) && k != ".") && (forall id string, k string :: id in r.rulesConfig.IgnoreRuleIDToRootPaths && k in r.rulesConfig.IgnoreRuleIDToRootPaths[id] ==> validRel(k) && k != ".")
+//@   ensures error-gives-no-config: err != nil ==> r == nil
+//
+//@ func configForBreakingConfig(breakingConfig, allRules, allCategories, excludeImports, relatedCheckConfigs) (r, err)
+//@   property C06
+//@   modifies heap
+//@   requires replacements-not-deprecated: forall i int, j int, q int :: 0 <= i && i < len(allRules) && 0 <= j && j < len(allRules) && allRules[i].Deprecated() && 0 <= q && q < len(allRules[i].ReplacementIDs()) && allRules[j].ID() == allRules[i].ReplacementIDs()[q] ==> !allRules[j].Deprecated()
+//@   ensures breaking-switches: err == nil ==> r != nil && r.optionsConfig != nil && !r.optionsConfig.AllowCommentIgnores && r.optionsConfig.CommentIgnorePrefix == "" && r.optionsConfig.IgnoreUnstablePackages == breakingConfig.IgnoreUnstablePackages() && r.optionsConfig.ExcludeImports == excludeImports
+//@   ensures ignore-paths-valid: err == nil ==> r.rulesConfig != nil && (forall k string :: k in r.rulesConfig.IgnoreRootPaths ==> validRel(k) && k != ".") && (forall id string, k string :: id in r.rulesConfig.IgnoreRuleIDToRootPaths && k in r.rulesConfig.IgnoreRuleIDToRootPaths[id] ==> validRel(k) && k != ".")
+//@   ensures error-gives-no-config: err != nil ==> r == nil
+//
+// ---------------------------------------------------------------------------------------------------------------
+// rules_config.go, warnings: the warn* helpers only talk to the logger. They must not change the rules configuration (the
+// selected rules and ignore paths are the same with and without warnings): no `modifies heap` - the frame obligations
+// #frame[heap] check that nothing reachable is written. ghost.ra_warnN counts the warnings handed to the logger (ghost code
+// at the logger.Warn statements of these helpers).
+//  - nothing deprecated referenced => no warning; no unused plugin => no warning; unused plugins => exactly one warning.
+// (one warning per referenced deprecated ID is not stated: slicesext.MapKeysToSortedSlice's contract does not give the length.)
+//@ func warnReferencedDeprecatedIDsForIDType(logger, referencedDeprecatedIDToReplacementIDs, capitalizedIDType, pluralIDType)
+//@   property C06
+//@   modifies ghost.ra_warnN
+//@   ghost after "logger.Warn(" ra_warnN := ghost.ra_warnN + 1
+//@   ensures silent-without-deprecated-ids: len(referencedDeprecatedIDToReplacementIDs) == 0 ==> ghost.ra_warnN == old(ghost.ra_warnN)
+//@   ensures never-decreases: ghost.ra_warnN >= old(ghost.ra_warnN)
+//@   loop 0 invariant ghost.ra_warnN == old(ghost.ra_warnN) + $i
+//
+//@ func warnReferencedDeprecatedIDs(logger, rulesConfig)
+//@   property C06
+//@   modifies ghost.ra_warnN
+//@   requires rulesConfig != nil
+//@   ensures silent-without-deprecated-ids: len(rulesConfig.ReferencedDeprecatedRuleIDToReplacementIDs) == 0 && len(rulesConfig.ReferencedDeprecatedCategoryIDToReplacementIDs) == 0 ==> ghost.ra_warnN == old(ghost.ra_warnN)
+//@   ensures never-decreases: ghost.ra_warnN >= old(ghost.ra_warnN)
+//
+//@ func warnUnusedPlugins(logger, rulesConfig)
+//@   property C06
+//@   modifies ghost.ra_warnN
+//@   ghost after "logger.Warn(" ra_warnN := ghost.ra_warnN + 1
+//@   requires rulesConfig != nil && (forall k string :: k in rulesConfig.UnusedPluginNameToRuleIDs ==> len(rulesConfig.UnusedPluginNameToRuleIDs[k]) > 0)
+//@   ensures silent-without-unused-plugins: len(rulesConfig.UnusedPluginNameToRuleIDs) == 0 ==> ghost.ra_warnN == old(ghost.ra_warnN)
+//@   ensures one-warning-with-unused-plugins: len(rulesConfig.UnusedPluginNameToRuleIDs) > 0 ==> ghost.ra_warnN == old(ghost.ra_warnN) + 1
+//@   loop 0 invariant ghost.ra_warnN == old(ghost.ra_warnN)
+//@   loop 1 invariant ghost.ra_warnN == old(ghost.ra_warnN)
